@@ -270,6 +270,61 @@ def midscan_hup(ck, tree, rng, n, first_id):
     return cases, recs
 
 
+def control_read_faults(ck, tree, rng, n, first_id):
+    """each read of a control file at start-up failing in turn (EIO): the daemon either does not start or works with exactly the
+    files as written - a read that fails is not the end of the file.  Gated run with a fault policy; the message queued afterwards
+    is judged like any other under the configuration on disk."""
+    import daemon, sandbox, shutil
+    cases, recs = [], []
+    for i in range(n):
+        c0 = rand_cfg(rng, fill=1) if i % 2 else rand_cfg(rng)
+        addrs = gen_addrs(rng, [c0], 8)
+        rng.shuffle(addrs)
+        m = {"snd": "crf%d@sender.test" % i, "rc": addrs[:16]}
+        case = {"id": first_id + i, "phases": [{"k": "start", "cfg": c0, "msgs": [m]}]}
+        work = ck.scratch.sub("crf")
+        shutil.rmtree(work, ignore_errors=True)
+        sandbox.clear_queue(tree.root)
+        state = {"n": 0, "k": 1 + i // 2, "done": False}
+
+        def pol(pr, want, state=state):
+            if pr.role.split(":")[-1] == "qmail-send" and want.get("c") == "read" and "/control/" in (want.get("obj") or want.get("path") or "") and not state["done"]:
+                state["n"] += 1
+                if state["n"] == state["k"]:
+                    state["done"] = True
+                    return "fail 5"
+            return "go"
+        ctl = daemon.Controller(tree, work, policy=pol)
+        try:
+            c10_util.write_controls(tree.root, c0)
+            ctl.start()
+            ctl.run()
+            ctl.inject(b"Subject: crf\n\nbody\n", m["snd"].encode("latin-1"), [r.encode("latin-1") for r in m["rc"]])
+            ctl.run()
+            for _ in range(6):
+                if not ctl.delcmds:
+                    break
+                for cmd in list(ctl.delcmds):
+                    ctl.report(cmd["chan"], cmd["delnum"], b"Zdeferred by the test rig\n")
+            q = sandbox.list_queue(tree.root, with_data=True)
+            infos = [name for (dd, name) in q if dd == "info"]
+            if not state["done"] or len(infos) != 1:
+                continue            # fewer reads than k, or the daemon refused to start (the message stays in todo/): nothing to judge
+            mid = infos[0]
+
+            def chan(dn):
+                v = q.get((dn, mid))
+                if not v:
+                    return []
+                return [x[1:].decode("latin-1") for x in v["data"].split(b"\0") if x[:1] in (b"T", b"D")]
+            recs.append({"case": case["id"], "ph": 0, "mi": 0, "snd": m["snd"], "rc": list(m["rc"]), "lo": chan("local"), "re": chan("remote"), "dl": [], "ok": 1, "crf": 1})
+            cases.append(case)
+        finally:
+            ctl.stop()
+    sandbox.clear_queue(tree.root)
+    return cases, recs
+
+
 def main():
     ap = argparse.ArgumentParser()
     ap.add_argument("--tier", default=os.environ.get("VERIF_TIER", "quick"))
@@ -406,6 +461,11 @@ def main():
             bycase[c["id"]] = c
         recs += mrecs
         ck.cov["messages_preprocessed_after_a_hup_that_arrived_during_the_scan"] = sum(1 for r in mrecs if r["ph"] == 1)
+        fcases, frecs = control_read_faults(ck, tree, rng, 40 if thorough else 16, 9100000)
+        for c in fcases:
+            bycase[c["id"]] = c
+        recs += frecs
+        ck.cov["daemons_started_with_one_failing_read_of_a_control_file_that_went_on_to_route_mail"] = len(frecs)
 
     # ---- 3. verdict by TLC ----------------------------------------------------------------------
     # (several TLC processes with one worker each: TLC parses the record file once per worker)
